@@ -922,6 +922,11 @@ impl Session {
             );
         }
 
+        // Verification hook (compiled only with `--features verif-hooks`): a scheduling point between taking the
+        // pending frames out of the buffer and taking the writer lock inside write_with_padding
+        #[cfg(feature = "verif-hooks")]
+        tokio::task::yield_now().await;
+
         // Write with padding if enabled
         self.write_with_padding(buffer).await
     }
